@@ -266,27 +266,33 @@ def prefixZeros (e : Env) (b : Bytes) (startIndex : Nat) : Flow (Bytes × Nat) :
       | .ok (isPrefix, b, startIndex) => leadingZeroCheck e isPrefix b zeros startIndex
   else .ok (b, startIndex)
 
-/-- the part of `algorithm!` after the prefix / leading-zero block: `overflow_digits`, `cannot_overflow`, the four
+/-- `if cannot_overflow && is_negative { parse_digits_unchecked!(value, iter, wrapping_sub, …, true) }` -/
+def negBlock (e : Env) (cannotOverflow isNegative : Bool) (b : Bytes) (startIndex : Nat) : Flow (Bytes × Nat) :=
+  if cannotOverflow && isNegative then parseDigitsUnchecked e true true startIndex b 0 else .ok (b, 0)
+
+/-- (no `else` before it) `if cannot_overflow { … } else if is_negative { … } else { … }` -/
+def mainBlock (e : Env) (cannotOverflow isNegative : Bool) (b : Bytes) (value startIndex od : Nat) :
+    Flow (Bytes × Nat) :=
+  if cannotOverflow then parseDigitsUnchecked e false true startIndex b value
+  else if isNegative then parseDigitsChecked e true startIndex b value od
+  else parseDigitsChecked e false startIndex b value od
+
+/-- the part of `algorithm!` after `let overflow_digits = T::overflow_digits(radix);`: `cannot_overflow`, the four
 digit-loop branches and the final `$into_ok!` -/
-def digitsPhase (e : Env) (isNegative : Bool) (b : Bytes) (startIndex : Nat) : Flow Res :=
-  let od := overflowDigits e.t e.radix
+def digitsBody (e : Env) (isNegative : Bool) (b : Bytes) (startIndex od : Nat) : Flow Res :=
   if e.c.debug && decide (b.index > b.slc.length) then .error (.error (.panic "as_slice: cursor > len"))
   else
     let cannotOverflow := decide (b.asSlice.length ≤ od)
-    -- if cannot_overflow && is_negative { … }
-    let st1 : Flow (Bytes × Nat) :=
-      if cannotOverflow && isNegative then parseDigitsUnchecked e true true startIndex b 0 else .ok (b, 0)
-    match st1 with
+    match negBlock e cannotOverflow isNegative b startIndex with
     | .error r => .error r
     | .ok (b, value) =>
-      -- (no `else`) if cannot_overflow { … } else if is_negative { … } else { … }
-      let st2 : Flow (Bytes × Nat) :=
-        if cannotOverflow then parseDigitsUnchecked e false true startIndex b value
-        else if isNegative then parseDigitsChecked e true startIndex b value od
-        else parseDigitsChecked e false startIndex b value od
-      match st2 with
+      match mainBlock e cannotOverflow isNegative b value startIndex od with
       | .error r => .error r
       | .ok (b, value) => .ok (intoOk e value b.bufferLength (b.iterCount e.c .integer))
+
+/-- the part of `algorithm!` after the prefix / leading-zero block -/
+def digitsPhase (e : Env) (isNegative : Bool) (b : Bytes) (startIndex : Nat) : Flow Res :=
+  digitsBody e isNegative b startIndex (overflowDigits e.t e.radix)
 
 /-- `algorithm!` with the `format` feature -/
 def algorithm (e : Env) (s : List Nat) : Flow Res :=
